@@ -94,6 +94,8 @@ func main() {
 	streamChecks(r)
 	ipv4Checks(r)
 	stabilityChecks(r)
+	reusedKeyBuffer(r)
+	everyByteInNumerals(r)
 
 	info.mu.Lock()
 	if len(info.m) > 0 {
